@@ -217,7 +217,7 @@ class DDLParser(Parser, Dialects):
             t = self.tokens_not_columns_names(t)
 
         if self.lexer.is_alter:
-            _type = tok.alter_tokens.get(t.value)
+            _type = tok.alter_tokens.get(t.value.upper())
             if _type:
                 t.type = _type
 
